@@ -105,6 +105,25 @@ func VerifC06Affinity(strategy int, n int, l int, mode int) {
 	verifrt.Assert(b1 == b2, "same client attribution -> same backend, whatever the port, path or other headers")
 }
 
+// VerifC06RemoteAddrForms: client attribution by RemoteAddr in the spellings
+// net/http produces - "host:port" for IPv4, "[host]:port" for IPv6 (with and
+// without a zone) - and the degenerate ones: two requests from the same host and
+// different source ports go to the same backend under both hashing strategies.
+func VerifC06RemoteAddrForms(strategy int, n int) {
+	lb := verifBareLB(strategy)
+	for i := 0; i < n; i++ {
+		lb.strategy.AddBackend(verifBackend(i))
+	}
+	hosts := []string{"198.51.100.7", "[2001:db8::1]", "[::1]", "[fe80::1%eth0]", "[2001:db8::17]", "localhost"}
+	h := hosts[verifrt.Choice("host", len(hosts))]
+	ports := []string{"1", "80", "40000", "40001", "65535"}
+	p1 := ports[verifrt.Choice("port1", len(ports))]
+	p2 := ports[verifrt.Choice("port2", len(ports))]
+	b1 := lb.NextBackend(verifRequest(h + ":" + p1))
+	b2 := lb.NextBackend(verifRequest(h + ":" + p2))
+	verifrt.Assert(b1 != nil && b1 == b2, "a client keeps its backend regardless of its source port, also for IPv6 peers ([host]:port)")
+}
+
 // VerifC06AffinityConcurrent: requests of two different clients handled at the
 // same time each reach the backend their client is pinned to (what the same
 // requests get one after the other), whatever the interleaving.
